@@ -121,18 +121,24 @@ func symSmall(id string) *Small {
 	if !verif.Bool(id + ".present") {
 		return nil
 	}
-	return &Small{V: verif.String(id+".v", 2)}
+	return &Small{V: verif.String(id+".v", verif.L(2))}
 }
 
 // ---- C04/C05 per message type ----
 
 func VerifC04Int64() {
-	m := &Int64Msg{Big: verif.Int64("big"), Ubig: verif.Uint64("ubig"), Name: verif.String("name", 2), Plain: verif.Int64("plain")}
-	switch verif.Choice("bigs.len", 3) {
+	m := &Int64Msg{Big: verif.Int64("big"), Ubig: verif.Uint64("ubig"), Name: verif.String("name", verif.L(2)), Plain: verif.Int64("plain")}
+	nBigs := 3
+	if verif.Thorough() {
+		nBigs = 4
+	}
+	switch verif.Choice("bigs.len", nBigs) {
 	case 1:
 		m.Bigs = []int64{verif.Int64("bigs0")}
 	case 2:
 		m.Bigs = []int64{verif.Int64("bigs0"), verif.Int64("bigs1")}
+	case 3:
+		m.Bigs = []int64{verif.Int64("bigs0"), verif.Int64("bigs1"), verif.Int64("bigs2")}
 	}
 	data, err := m.MarshalJSON()
 	verif.Assert("C04/int64/marshal-ok", err == nil)
@@ -152,9 +158,9 @@ func VerifC04Int64() {
 }
 
 func VerifC04Nullable() {
-	m := &NullableMsg{Id: verif.String("id", 2)}
+	m := &NullableMsg{Id: verif.String("id", verif.L(2))}
 	if verif.Bool("nick.set") {
-		s := verif.String("nick", 2)
+		s := verif.String("nick", verif.L(2))
 		m.NickName = &s
 	}
 	if verif.Bool("age.set") {
@@ -178,7 +184,7 @@ func VerifC04Nullable() {
 }
 
 func VerifC04EmptyBehavior() {
-	m := &EmptyMsg{Id: verif.String("id", 2), Keep: symSmall("keep"), AsNull: symSmall("asNull"), Drop: symSmall("drop")}
+	m := &EmptyMsg{Id: verif.String("id", verif.L(2)), Keep: symSmall("keep"), AsNull: symSmall("asNull"), Drop: symSmall("drop")}
 	data, err := m.MarshalJSON()
 	verif.Assert("C04/empty_behavior/marshal-ok", err == nil)
 	verif.Assert("C05/empty_behavior/wire=reference-mapping", verif.JEqual(data, refEmptyMsg(m)))
@@ -192,7 +198,7 @@ func VerifC04EmptyBehavior() {
 }
 
 func VerifC04Flatten() {
-	m := &FlattenMsg{Id: verif.String("id", 2), Addr: symSmall("addr")}
+	m := &FlattenMsg{Id: verif.String("id", verif.L(2)), Addr: symSmall("addr")}
 	data, err := m.MarshalJSON()
 	verif.Assert("C04/flatten/marshal-ok", err == nil)
 	verif.Assert("C05/flatten/wire=reference-mapping", verif.JEqual(data, refFlattenMsg(m)))
@@ -208,9 +214,9 @@ func VerifC04Flatten() {
 }
 
 func VerifC04FlattenChild() {
-	m := &FlattenChildMsg{Id: verif.String("id", 2)}
+	m := &FlattenChildMsg{Id: verif.String("id", verif.L(2))}
 	if verif.Bool("home.present") {
-		m.Home = &Child{StreetName: verif.String("street", 2), ZipCode: verif.Int64("zip")}
+		m.Home = &Child{StreetName: verif.String("street", verif.L(2)), ZipCode: verif.Int64("zip")}
 	}
 	data, err := m.MarshalJSON()
 	verif.Assert("C04/flatten-child/marshal-ok", err == nil)
@@ -228,14 +234,14 @@ func VerifC04FlattenChild() {
 func symContent(m *OneofMsg, f *OneofFlatMsg) {
 	switch verif.Choice("content", 3) {
 	case 1:
-		t := &Text{Body: verif.String("text.body", 2)}
+		t := &Text{Body: verif.String("text.body", verif.L(2))}
 		if m != nil {
 			m.Content = &OneofMsg_Text{Text: t}
 		} else {
 			f.Content = &OneofFlatMsg_Text{Text: t}
 		}
 	case 2:
-		i := &Image{Url: verif.String("image.url", 2), Width: verif.Int32("image.width")}
+		i := &Image{Url: verif.String("image.url", verif.L(2)), Width: verif.Int32("image.width")}
 		if m != nil {
 			m.Content = &OneofMsg_ImageData{ImageData: i}
 		} else {
@@ -245,7 +251,7 @@ func symContent(m *OneofMsg, f *OneofFlatMsg) {
 }
 
 func VerifC04Oneof() {
-	m := &OneofMsg{Id: verif.String("id", 2)}
+	m := &OneofMsg{Id: verif.String("id", verif.L(2))}
 	symContent(m, nil)
 	data, err := m.MarshalJSON()
 	verif.Assert("C04/oneof/marshal-ok", err == nil)
@@ -264,7 +270,7 @@ func VerifC04Oneof() {
 }
 
 func VerifC04OneofFlat() {
-	m := &OneofFlatMsg{Id: verif.String("id", 2)}
+	m := &OneofFlatMsg{Id: verif.String("id", verif.L(2))}
 	symContent(nil, m)
 	data, err := m.MarshalJSON()
 	verif.Assert("C04/oneof-flat/marshal-ok", err == nil)
@@ -283,7 +289,7 @@ func VerifC04OneofFlat() {
 }
 
 func VerifC04Bytes() {
-	m := &BytesMsg{Id: verif.String("id", 2), HexData: []byte(verif.String("hex", 2)), UrlData: []byte(verif.String("url", 2))}
+	m := &BytesMsg{Id: verif.String("id", verif.L(2)), HexData: []byte(verif.String("hex", verif.L(2))), UrlData: []byte(verif.String("url", verif.L(2)))}
 	data, err := m.MarshalJSON()
 	verif.Assert("C04/bytes/marshal-ok", err == nil)
 	var back BytesMsg
@@ -293,9 +299,9 @@ func VerifC04Bytes() {
 }
 
 func VerifC05FlattenAnnotatedChild() {
-	m := &FlattenAnnotatedMsg{Id: verif.String("id", 2)}
+	m := &FlattenAnnotatedMsg{Id: verif.String("id", verif.L(2))}
 	if verif.Bool("stats.present") {
-		m.Stats = &Int64Msg{Big: verif.Int64("stats.big"), Name: verif.String("stats.name", 2), Plain: verif.Int64("stats.plain")}
+		m.Stats = &Int64Msg{Big: verif.Int64("stats.big"), Name: verif.String("stats.name", verif.L(2)), Plain: verif.Int64("stats.plain")}
 	}
 	data, err := m.MarshalJSON()
 	verif.Assert("C05/flatten-annotated/marshal-ok", err == nil)
